@@ -357,6 +357,10 @@ class Tree:
         """
         count = 0
         for ind in reversed(self.stack):
+            if ind is self.outmost:
+                # the root is never closed, even if its name equals the tag's
+                count = 0
+                break
             count = count + 1
             if ind.name == name:
                 break
